@@ -403,7 +403,11 @@ pub fn run(ctx: &mut Ctx) {
         let mut rng = ctx.case_rng("history", i);
         let (grid, all) = random_taxonomy(&mut rng);
         let g = graph_of(&grid);
-        let keys: Vec<String> = (0..4 + rng.below(4)).map(|_| all[rng.below(all.len())].clone()).collect();
+        let mut keys: Vec<String> = (0..4 + rng.below(4)).map(|_| all[rng.below(all.len())].clone()).collect();
+        // names that are no defs are cached too: keep one or two among the hot keys
+        if rng.chance(2, 3) {
+            keys.push(format!("zzNoDef{}", rng.below(2)));
+        }
         let mut script: Vec<Query> = (0..24).map(|_| gen_query(&mut rng, &keys, &all)).collect();
         let mut first: HashMap<String, String> = HashMap::new();
         for perm in 0..4 {
@@ -506,7 +510,10 @@ pub fn run(ctx: &mut Ctx) {
         };
         let nthreads = if cfg!(miri) { 2 + rng.below(2) } else { *rng.pick(&[2usize, 2, 3, 4, 4, 8, 8, 16]) };
         let nkeys = 1 + rng.below(4);
-        let keys: Vec<String> = (0..nkeys).map(|_| all[rng.below(all.len())].clone()).collect();
+        let mut keys: Vec<String> = (0..nkeys).map(|_| all[rng.below(all.len())].clone()).collect();
+        if rng.chance(1, 2) {
+            keys.push(format!("zzNoDef{}", rng.below(2)));
+        }
         let qn = if cfg!(miri) { 4 } else { 6 + rng.below(20) };
         let scripts: Vec<Vec<Query>> = (0..nthreads).map(|_| (0..qn).map(|_| gen_query(&mut rng, &keys, &all)).collect()).collect();
         // cold single-threaded answers for every distinct query (its own fresh namespace)
